@@ -221,6 +221,9 @@ def run(ctx: core.Ctx):
         ctx.correspondence_broken("recvScripted model vs real subunit objects with re-entrant update callbacks", dis[0])
     ctx.assumptions += ["user callbacks do not raise", "delivery order among callbacks is unspecified (the model fixes registration order; order-dependent scripts are judged by the must/may monitor only)",
                         "DetSched shims implement threading/queue/time semantics; the virtual port behaves like a pyserial port without cancel_read"]
+    # two objects of the same class on two connections (class-level / module-level state shows here)
+    from .. import twin as _twin
+    _twin.run(ctx, core.tables(), ctx.rng, "notify")
     return ctx.finish()
 
 
